@@ -13,6 +13,16 @@ impl Span {
 pub fn __verif_event(_a: core::fmt::Arguments<'_>) {}
 pub fn __verif_span(_name: &'static str) -> Span { Span }
 #[macro_export] macro_rules! trace { ($($arg:tt)+) => { $crate::__verif_event(::core::format_args!($($arg)+)) }; }
+#[macro_export] macro_rules! debug { ($($arg:tt)+) => { $crate::__verif_event(::core::format_args!($($arg)+)) }; }
+#[macro_export] macro_rules! info { ($($arg:tt)+) => { $crate::__verif_event(::core::format_args!($($arg)+)) }; }
+#[macro_export] macro_rules! warn { ($($arg:tt)+) => { $crate::__verif_event(::core::format_args!($($arg)+)) }; }
+#[macro_export] macro_rules! error { ($($arg:tt)+) => { $crate::__verif_event(::core::format_args!($($arg)+)) }; }
+#[macro_export] macro_rules! event { ($lvl:expr, $($arg:tt)+) => { { let _ = &$lvl; $crate::__verif_event(::core::format_args!($($arg)+)) } }; }
+pub struct Level; impl Level { pub const TRACE: Level = Level; pub const DEBUG: Level = Level; pub const INFO: Level = Level; pub const WARN: Level = Level; pub const ERROR: Level = Level; }
+#[macro_export] macro_rules! debug_span { (parent: $p:expr, $name:expr) => { { let _ = &$p; $crate::__verif_span($name) } }; ($name:expr) => { $crate::__verif_span($name) }; }
+#[macro_export] macro_rules! info_span { (parent: $p:expr, $name:expr) => { { let _ = &$p; $crate::__verif_span($name) } }; ($name:expr) => { $crate::__verif_span($name) }; }
+#[macro_export] macro_rules! warn_span { (parent: $p:expr, $name:expr) => { { let _ = &$p; $crate::__verif_span($name) } }; ($name:expr) => { $crate::__verif_span($name) }; }
+#[macro_export] macro_rules! error_span { (parent: $p:expr, $name:expr) => { { let _ = &$p; $crate::__verif_span($name) } }; ($name:expr) => { $crate::__verif_span($name) }; }
 #[macro_export] macro_rules! trace_span {
     (parent: $p:expr, $name:expr) => { { let _ = &$p; $crate::__verif_span($name) } };
     ($name:expr) => { $crate::__verif_span($name) };
